@@ -85,7 +85,7 @@ def run(ctx):
         obj = json.load(open(ctx.replay))
         return progcheck.replay_file(ctx, ctx.replay, project=project_for(obj["scenario"]["kind"]))
     thorough = ctx.tier == "thorough"
-    for dev in ("RangeToNodeStart", "TrailAfterDecl", "OnceConsumesSlot", "FileDocOnly", "LastMarkerOnly", "FuncLineCoversBody", "OnlyFuncDeclBodies", "LineDirAdjusted"):
+    for dev in ("PrefixMatch", "RangeToNodeStart", "TrailAfterDecl", "OnceConsumesSlot", "FileDocOnly", "LastMarkerOnly", "FuncLineCoversBody", "OnlyFuncDeclBodies", "LineDirAdjusted"):
         r = ctx.tlc("Scope", cfg("quick", emit=False, dev='{"%s"}' % dev, live=False), label="c07_dev_" + dev, allow_violation=True, count=False)
         if r["violated"] != "Exact":
             raise vlib.ToolError("deviation %s does not violate Exact: vacuous" % dev)
